@@ -553,4 +553,44 @@ theorem C16_two_level_needs_both_deactivations :
     ∃ s, Reach cfgNoProcExit s ∧ s.lock = none ∧ s.attrP ≠ none :=
   ⟨runD cfgNoProcExit St.init (blockIn 0 ++ .thr 0 .beginExit :: steps 0 6), reach_runD _ Reach.init, by decide⟩
 
+/- ---- would `cache.setdefault(fun, ret)` (first store wins, `ret` not rebound) repair finding
+   C16-owner-entry-overwritten? No. -/
+
+/-- full-strength statement, two levels: as long as a thread stays inside its block, two returns of
+    ONE method (front-end memo function `ff`, source `g`) give the same entry -/
+def C16_owner_first_read_stable_two_level_Full (c : CCfg2) : Prop :=
+  ∀ (as1 as2 : List Action) (t g cs1 cs2 : Nat) (ff : Option Nat) (e1 e2 : Entry) (h1 h2 : How),
+    (as1 ++ as2).all (fun a => match a with
+      | .thr t' (.call ff' g') => t' != t || (ff' == ff && g' == g)
+      | _ => true) = true →
+    ((runD c St.init as1).thr t) = ⟨.inBlock, .ret g cs1 e1 h1⟩ →
+    ((runD c (runD c St.init as1) as2).thr t) = ⟨.inBlock, .ret g cs2 e2 h2⟩ →
+    (.thr t .beginExit) ∉ as2 → e1 = e2
+
+/-- the what-if wrapper: `cache.setdefault(fun, ret)` without rebinding `ret` -/
+def cfgKeep : CCfg2 := { cfgAsIs with storeKeep := true }
+
+/-- owner (thread 0) misses in its block's platform dict; thread 1's plain name() misses too, reads 5
+    and stores FIRST; the content changes; the owner reads 9, its setdefault is a no-op, it returns
+    its own 9; its next name() in the same block hits thread 1's 5 — an OLDER content than the one
+    it was just given -/
+def keepActs1 : List Action :=
+  blockIn 0 ++ [.thr 0 (.call none 0), stp 0, stp 0, .setVer 0 5, .thr 1 (.call none 0)] ++ steps 1 4 ++
+  [.setVer 0 9, stp 0, stp 0]
+def keepActs2 : List Action := [stp 0, .thr 0 (.call none 0), stp 0, stp 0]
+
+/-- first-store-wins WITHOUT rebinding does not make the owner's answers stable (and can hand it
+    9 then 5, i.e. go back in time, which the plain store cannot); all other two-level theorems
+    hold for it as they hold for every configuration. Rebinding (`ret = cache.setdefault(fun, ret)`)
+    would, but then a plain caller that COMPUTED returns another thread's read, possibly made
+    before its call began: the literal-for-misses theorems become false. -/
+theorem C16_setdefault_keep_does_not_repair : ¬ C16_owner_first_read_stable_two_level_Full cfgKeep := by
+  intro h
+  have := h keepActs1 keepActs2 0 0 10 23 none ⟨9, 20⟩ ⟨5, 17⟩ .computed (.hitP 6 24) (by decide) (by decide)
+    (by decide) (by decide)
+  revert this; decide
+
+/-- on the same schedule today's plain store gives the owner 9 twice -/
+example : ((runD cfgAsIs (runD cfgAsIs St.init keepActs1) keepActs2).thr 0).pc = .ret 0 23 ⟨9, 20⟩ (.hitP 6 24) := by decide
+
 end Psutil.C16.Conc2
